@@ -153,6 +153,8 @@ inductive CPay where
   | mem (x : UInt64)
   | delay (x t : UInt64)
   | child (ret : Val) (cells : List CPay)
+  /-- the cell is not reached in this call (it belongs to an `if` arm that is not taken): no tree operation, no instruction -/
+  | skip
 deriving Repr, Inhabited
 
 structure NPay where
@@ -516,6 +518,84 @@ def PayShapeL : List LCell → List CPay → Prop
   | c :: cs, p :: ps => PayShape c p ∧ PayShapeL cs ps
   | _, _ => False
 end
+
+/-! ### state inside `if` arms (after the repair of finding F3): a call reaches the cells of the arms taken
+
+The compiler publishes the cells of BOTH arms of an `if` (condition, then `then`, then `else`); one call reaches, in layout
+order, the cells outside arms and those of the arms taken.  The payload of such a call marks the cells it does not reach
+with `CPay.skip` (`treeCell c .skip` is the identity, `flatCell c .skip` is empty). -/
+
+mutual
+/-- `PayShape`, a cell may also be skipped (at any depth) -/
+def PayShapeA : LCell → CPay → Prop
+  | _, .skip => True
+  | .mem _, .mem _ => True
+  | .delay _ _, .delay _ _ => True
+  | .child _ _ cells, .child _ ps => PayShapeAL cells ps
+  | _, _ => False
+def PayShapeAL : List LCell → List CPay → Prop
+  | [], [] => True
+  | c :: cs, p :: ps => PayShapeA c p ∧ PayShapeAL cs ps
+  | _, _ => False
+end
+
+mutual
+/-- `PayOk`, a cell may also be skipped (at any depth) -/
+def PayOkA : LCell → CPay → Prop
+  | _, .skip => True
+  | .mem _, .mem _ => True
+  | .delay _ _, .delay _ _ => True
+  | .child _ self cells, .child ret ps => RetOk self ret ∧ PayOkAL cells ps
+  | _, _ => False
+def PayOkAL : List LCell → List CPay → Prop
+  | [], [] => True
+  | c :: cs, p :: ps => PayOkA c p ∧ PayOkAL cs ps
+  | _, _ => False
+end
+
+def NPayOkA (lay : LNode) (pay : NPay) : Prop := RetOk lay.self pay.ret ∧ PayOkAL lay.cells pay.cells
+
+mutual
+/-- `VisitsA P e seg`: `Visits` with state inside `if` arms — `seg` lists the cells of the condition, of the `then` arm and
+of the `else` arm, in this order (what the repaired compiler publishes); an evaluation reaches the cells of the condition
+and of the arm it takes.  Every `Visits` is a `VisitsA` (arms without cells). -/
+inductive VisitsA (P : Prog) : Expr → List LCell → Prop
+  | lit {b} : VisitsA P (.lit b) []
+  | var {x} : VisitsA P (.var x) []
+  | now : VisitsA P .now []
+  | samplerate : VisitsA P .samplerate []
+  | self : VisitsA P .self []
+  | lam {ps body} : VisitsA P (.lam ps body) []
+  | un {op a s} : VisitsA P a s → VisitsA P (.un op a) s
+  | bin {op a b s1 s2} : VisitsA P a s1 → VisitsA P b s2 → VisitsA P (.bin op a b) (s1 ++ s2)
+  | ite {c a b sc sa sb} : VisitsA P c sc → VisitsA P a sa → VisitsA P b sb → VisitsA P (.ite c a b) (sc ++ (sa ++ sb))
+  | letE {x a body s1 s2} : VisitsA P a s1 → VisitsA P body s2 → VisitsA P (.letE x a body) (s1 ++ s2)
+  | letTup {xs a body s1 s2} : VisitsA P a s1 → VisitsA P body s2 → VisitsA P (.letTup xs a body) (s1 ++ s2)
+  | assign {x a rest s1 s2} : VisitsA P a s1 → VisitsA P rest s2 → VisitsA P (.assign x a rest) (s1 ++ s2)
+  | proj {a i s} : VisitsA P a s → VisitsA P (.proj a i) s
+  | tup {es s} : VisitsAL P es s → VisitsA P (.tup es) s
+  | app {f args s0 s} : VisitsA P f s0 → VisitsAL P args s → VisitsA P (.app f args) (s0 ++ s)
+  | mem {a site s} : VisitsA P a s → VisitsA P (.mem a site) (s ++ [.mem site])
+  | delay {n a t site s1 s2} : VisitsA P a s1 → VisitsA P t s2 → VisitsA P (.delay n a t site) (s1 ++ s2 ++ [.delay site n])
+  | call {f args site self cells' s} : VisitsAL P args s →
+      (∀ d, findFn P.fns f = some d → d.selfShape = self) →
+      (∀ d, findFn P.fns f = some d → VisitsA P d.body cells') →
+      VisitsA P (.call f args site) (s ++ [.child site self cells'])
+inductive VisitsAL (P : Prog) : List Expr → List LCell → Prop
+  | nil : VisitsAL P [] []
+  | cons {e es s1 s2} : VisitsA P e s1 → VisitsAL P es s2 → VisitsAL P (e :: es) (s1 ++ s2)
+end
+
+/-- the access that reads `self` at the start of an instance's region (none for a function without `self`) -/
+def selfGetAcc (self : Option Shape) (b : Nat) : List Access :=
+  match self with
+  | none => []
+  | some sh => [⟨.get, b, shapeSize sh⟩]
+/-- the access that writes `self` back -/
+def selfSetAcc (self : Option Shape) (b : Nat) : List Access :=
+  match self with
+  | none => []
+  | some sh => [⟨.set, b, shapeSize sh⟩]
 
 /-- two machines between samples: same globals, same sample index, agreeing `dsp` state -/
 def MAgree (lay : LNode) (m₁ m₂ : Machine) : Prop :=
